@@ -107,6 +107,48 @@ fn c12_table_key_is_displayed_address_df19_none() { key_is_displayed_address(9);
 #[kani::proof]
 #[kani::unwind(12)]
 fn c12_table_key_is_displayed_address_df24_none() { key_is_displayed_address(10); }
+/// C01: rendering an accepted message as text does not panic (Display of the surveillance / all-call /
+/// extended-squitter records with every address and every altitude / identity code)
+fn display_total(which: u8) {
+    let a: u32 = kani::any(); let b: u32 = kani::any();
+    kani::assume(a < (1 << 24) && b < (1 << 24));
+    let m = any_record(which, a, b);
+    let s = format!("{}", m);
+    assert!(s.len() > 0);
+}
+#[kani::proof]
+#[kani::unwind(40)]
+fn c01_display_total_df4() { display_total(1); }
+#[kani::proof]
+#[kani::unwind(40)]
+fn c01_display_total_df11() { display_total(3); }
+#[kani::proof]
+#[kani::unwind(40)]
+fn c01_display_total_df17() { display_total(5); }
+#[kani::proof]
+#[kani::unwind(40)]
+fn c01t_display_total_df0() { display_total(0); }
+#[kani::proof]
+#[kani::unwind(40)]
+fn c01t_display_total_df5() { display_total(2); }
+#[kani::proof]
+#[kani::unwind(40)]
+fn c01t_display_total_df16() { display_total(4); }
+#[kani::proof]
+#[kani::unwind(40)]
+fn c01t_display_total_df18() { display_total(6); }
+#[kani::proof]
+#[kani::unwind(40)]
+fn c01t_display_total_df20() { display_total(7); }
+#[kani::proof]
+#[kani::unwind(40)]
+fn c01t_display_total_df21() { display_total(8); }
+#[kani::proof]
+#[kani::unwind(40)]
+fn c01t_display_total_df19() { display_total(9); }
+#[kani::proof]
+#[kani::unwind(40)]
+fn c01t_display_total_df24() { display_total(10); }
 /// vacuity canary: must FAIL
 #[kani::proof]
 #[kani::unwind(12)]
